@@ -24,6 +24,7 @@ def requests():
         Request(UNIT, fn=[CLS + "::.*"], rec=[CLS]),
         Request("src/recon_buildblock/PoissonLogLikelihoodWithLinearModelForMean.cxx", fn=["stir::PoissonLogLikelihoodWithLinearModelForMean::.*"]),
         Request("src/recon_buildblock/GeneralisedObjectiveFunction.cxx", fn=["stir::GeneralisedObjectiveFunction::.*"]),
+        Request("src/recon_buildblock/distributable.cxx", fn=["stir::get_viewgrams", "stir::zero_end_sinograms"]),
     ]
 
 
@@ -129,6 +130,61 @@ def rule_a(ctx, fns):
     return len(requesters)
 
 
+def rule_c_end_planes(ctx, fn):
+    """get_viewgrams: when segment-0 end planes are to be zeroed, every viewgram set handed back (measured, additive,
+    multiplicative) is zeroed after its last modification - on every path, for every combination of inputs."""
+    cfg = CFG(fn)
+    outs = [p for p in fn.params if "RelatedViewgrams" in p["t"] and p["t"].rstrip().endswith("&") and not p["t"].startswith("const")]
+    z = fn.param("zero_seg0_end_planes")
+    if not outs or z is None:
+        ctx.unrec(fn.qn, "expected by-reference RelatedViewgrams outputs and a zero_seg0_end_planes parameter")
+        return
+    zkey = "v%d" % z["d"]
+    segkeys = {key(n) for n in fn.walk() if n.k == "BinaryOperator" and n.op == "==" and "segment_num()" in key(n, True) and key(n.c[1].strip()) == "0"}
+    if len(segkeys) != 1:
+        ctx.unrec(fn.qn, "expected exactly one form of the test segment_num() == 0, found %s" % sorted(segkeys))
+        return
+    skey = segkeys.pop()
+    ghosts = ["ghost:zeroed:" + p["n"] for p in outs]
+    roots_ = {"v%d" % p["d"]: i for i, p in enumerate(outs)}
+    ex = Explorer(cfg, [zkey, skey] + ghosts)
+    from engine.tree import written_lvalues, root_of_lvalue
+
+    def on_el(n, s, _ex):
+        s2 = list(s)
+        changed = False
+        if n.is_call() and n.callee == "stir::zero_end_sinograms" and n.call_args():
+            a0 = n.call_args()[0].strip()
+            while a0.k in ("CXXConstructExpr", "Cast") and len(a0.c) == 1:
+                a0 = a0.c[0].strip()  # the shared_ptr is passed by value: a copy of the same pointer
+            r = root_of_lvalue(a0)
+            if r in roots_:
+                s2[2 + roots_[r]] = True
+                changed = True
+        else:
+            for e in written_lvalues(n):
+                r = root_of_lvalue(e)
+                if r in roots_:
+                    s2[2 + roots_[r]] = False
+                    changed = True
+        return [tuple(s2)] if changed else None
+
+    entry = [(zv, sv) + tuple(True for _ in outs) for zv in (True, False) for sv in (True, False)]
+    exits = ex.run(entry, on_el)
+    for i, p in enumerate(outs):
+        bad = [s for s in exits if s[0] is True and s[1] is True and s[2 + i] is not True]
+        ctx.ob(
+            "C05.c-end-planes-zeroed-uniformly",
+            fn.qn,
+            "output:" + p["n"],
+            not bad and bool(exits),
+            fn.where(),
+            "on every path with zero_seg0_end_planes and segment 0, zero_end_sinograms(%s) follows the last modification of %s (%d exit states)" % (p["n"], p["n"], len(exits))
+            if not bad
+            else "a path with zero_seg0_end_planes && segment_num()==0 returns %s modified but not end-plane-zeroed" % p["n"],
+        )
+
+
 def run(ctx):
     ctx.explanation = (
         "Decides (a) by finite-domain abstract interpretation of every request function of "
@@ -159,5 +215,11 @@ def run(ctx):
             "stir::GeneralisedObjectiveFunction::set_prior_sptr": "the prior carries its own _already_set_up flag: every prior computation starts with check(), which calls error() when the new prior was not set up (GeneralisedPrior::check)",
         },
     )
+    gv = [f for f in units[3].functions if f.qn == "stir::get_viewgrams" and f.body is not None]
+    if not gv:
+        ctx.fail_broken("anchor stir::get_viewgrams (distributable.cxx) not found")
+    else:
+        rule_c_end_planes(ctx, gv[0])
+    ctx.require_count("C05.c-end-planes-zeroed-uniformly", 3)
     ctx.require_count("C05.a-setup-typestate", 13)
     ctx.require_count("C05.b-setters-invalidate", 14)
